@@ -11,6 +11,36 @@ def parseText (s : List Char) : Except Panic Program :=
   | .error p => .error p
   | .ok ts => Parse.parse ts
 
+def parseChanges : List String → Option (List TextChange)
+  | [] => some []
+  | lo :: hi :: ins :: rest =>
+    match lo.toNat?, hi.toNat?, textOfHex ins, parseChanges rest with
+    | some lo, some hi, some ins, some cs => some (⟨lo, hi, ins⟩ :: cs)
+    | _, _, _, _ => none
+  | _ => none
+
+def sourceStr (d : AnalyzedSource) : String :=
+  match d.errors with
+  | .error e => panicStr e
+  | .ok errs => Dump.program d.ast ++ " ;; " ++ Dump.table d.table ++ " ;; " ++ String.join (errs.map errStr)
+
+/-- C01 on the model: update = new(final text), layer by layer. -/
+def incProp (text : List Char) (cs : List TextChange) : String :=
+  match AnalyzedSource.new text with
+  | .error e => s!"bad:{panicStr e}"
+  | .ok d =>
+    match d.update cs with
+    | .error e => s!"bad:update:{panicStr e}"
+    | .ok u =>
+      match AnalyzedSource.new u.text with
+      | .error e => s!"bad:{panicStr e}"
+      | .ok f =>
+        if toksStr u.tokens != toksStr f.tokens then "bad:tokens"
+        else if Dump.program u.ast != Dump.program f.ast then "bad:tree"
+        else if Dump.table u.table != Dump.table f.table then "bad:table"
+        else if sourceStr u != sourceStr f then "bad:diagnostics"
+        else "ok"
+
 def declDumps (p : Program) : List (Nat × String) :=
   p.decls.map (fun r => (r.offset, Dump.global (r.val.mapInfo removeMessages)))
 
@@ -66,6 +96,20 @@ def parseOps (op : String) (args : List String) (_impl : String) : Option String
     match textOfHex t0, textOfHex t1, k.toNat?, n.toNat? with
     | some t0, some t1, some k, some n => some (containProp t0 t1 k n)
     | _, _, _, _ => none
+  | "INC", t :: rest =>
+    match textOfHex t, parseChanges rest with
+    | some text, some cs =>
+      match AnalyzedSource.new text with
+      | .error e => some (panicStr e)
+      | .ok d =>
+        match d.update cs with
+        | .error e => some (panicStr e)
+        | .ok u => some (sourceStr u)
+    | _, _ => none
+  | "PROPINC", t :: rest =>
+    match textOfHex t, parseChanges rest with
+    | some text, some cs => some (incProp text cs)
+    | _, _ => none
   | "SPECPARSE", [t] =>
     (textOfHex t).map fun s =>
       match lex s with
